@@ -19,7 +19,7 @@ Proof.
 Qed.
 
 (* ---- the label machine on a whole program ------------------------------------------------------------------- *)
-Definition pr0 (p : prog) : promise := mkPr (lexdecls p) (vardecls p) false.
+Definition pr0 (p : prog) : promise := mkPr (lexdecls p) (vardecls p) false [].
 Definition e0 (p : prog) : env := [(O, false, vardecls p ++ lexdecls p)].
 
 (* the fragment without default values is part of the fragment with them *)
